@@ -9,10 +9,12 @@ package broker
 // required permission, and its target covers the channel.
 
 import (
+	"github.com/emitter-io/emitter/internal/event"
 	"github.com/emitter-io/emitter/internal/message"
 	"github.com/emitter-io/emitter/internal/provider/contract"
 	"github.com/emitter-io/emitter/internal/provider/usage"
 	"github.com/emitter-io/emitter/internal/security"
+	"github.com/emitter-io/emitter/internal/service/presence"
 	vs "github.com/emitter-io/emitter/internal/verifspec"
 )
 
@@ -116,3 +118,39 @@ func pre_onPeerMessage(s *Service, m *message.Message) bool {
 	return s != nil && m != nil && s.subscriptions != nil && s.contracts != nil && s.measurer != nil
 }
 func inv_onPeerMessage(s *Service) bool { return s != nil }
+
+// ---------------------------------------------------------------------------------------------------------
+// Presence notifications (property C18): exactly one presence event per successful subscribe / unsubscribe of a
+// DIRECT subscriber on a channel, of the right kind; none for peers or for channel-less (internal) subscriptions.
+
+//@ assume (*github.com/emitter-io/emitter/internal/service/presence.Service).Notify iface
+//@ assume (*github.com/emitter-io/emitter/internal/service/cluster.Swarm).Notify iface
+
+func pre_Notify(s *Service, sub message.Subscriber, ev *event.Subscription) bool {
+	return s != nil && sub != nil && ev != nil && s.presence != nil
+}
+
+//@ verify (*Service).NotifySubscribe pre=pre_Notify post=post_NotifySubscribe props=C18
+func post_NotifySubscribe(s *Service, sub message.Subscriber, ev *event.Subscription) bool {
+	direct := sub.Type() == message.SubscriberDirect
+	n := vs.TraceFind("presence.Service).Notify")
+	if !direct || ev.Channel == nil {
+		return n < 0
+	}
+	return n >= 0 && vs.TraceCount("presence.Service).Notify") == 1 && vs.TraceArg[presence.EventType](n, 1) == presence.EventTypeSubscribe &&
+		vs.TraceArg[*event.Subscription](n, 2) == ev
+}
+
+//@ verify (*Service).NotifyUnsubscribe pre=pre_Notify post=post_NotifyUnsubscribe props=C18
+func post_NotifyUnsubscribe(s *Service, sub message.Subscriber, ev *event.Subscription) bool {
+	n := vs.TraceFind("presence.Service).Notify")
+	one := n >= 0 && vs.TraceCount("presence.Service).Notify") == 1 && vs.TraceArg[presence.EventType](n, 1) == presence.EventTypeUnsubscribe &&
+		vs.TraceArg[*event.Subscription](n, 2) == ev
+	switch sub.Type() {
+	case message.SubscriberDirect:
+		return (ev.Channel == nil && n < 0) || (ev.Channel != nil && one)
+	case message.SubscriberOffline: // an offline (stored) session going away is announced too
+		return one
+	}
+	return n < 0
+}
